@@ -1,9 +1,103 @@
 import Drivers.Proto
-/-! Model driver for property C16 (stub: no model operations registered yet). -/
-open Lean Proto
+import St4sd.Model.Hash
+/-!
+Model driver for property C16.
+
+`md5` is supplied by the harness as a finite table (pre-image ↦ digest computed with hashlib); a pre-image
+that is not in the table hashes to `"?" ++ preimage` (the harness iterates: it adds the digests of the
+serialisations the model returns until every one of them is in the table).
+
+ops:
+* `world`: `{md5:[[pre,dig]…], bps:[[stage,name,exe]…], comps:[…], old:bool}` →
+  `{strong:[{ser,hash}|null…], fuzzy:[…]}` through the DAG recursion `Hash.hashes`/`Hash.sers`;
+* `ser`: `{image:str|null, args, exe, files:[…]}` → `{ser}` (`Hash.serialize`);
+* `tokens`: `{s}` → `{tokens}`; `subword`: `{pat, rep, s}` → `{out}`.
+-/
+open Lean Proto St4sd.Hash
+
+def getOptChars (j : Json) (k : String) : Except String (Option (List Char)) := do
+  return (← getOptStr j k).map String.toList
+
+def parseTarget (j : Json) : Except String Target := do
+  let kind ← getStr j "kind"
+  match kind with
+  | "file" => return .file (← getOptChars j "content")
+  | "dir" => return .dir
+  | "prodFile" => return .prodFile (← getNat j "p") (← getOptChars j "content")
+  | "prodDir" => return .prodDir (← getNat j "p")
+  | _ => throw s!"unknown target kind {kind}"
+
+def parseRef (j : Json) : Except String Ref := do
+  return { abs := ← getChars j "abs", rel := ← getChars j "rel", method := ← getChars j "method",
+           fileRef := ← getChars j "fileRef", target := ← parseTarget j }
+
+def parseBackend (j : Json) : Except String Backend := do
+  let kind ← getStr j "kind"
+  match kind with
+  | "local" => return .loc
+  | "kubernetes" => return .kubernetes (← getChars j "image")
+  | "lsf" => return .lsf (← getOptChars j "image")
+  | "docker" => return .docker (← getChars j "image")
+  | _ => return .other
+
+def parseComp (j : Json) : Except String Comp := do
+  let replica : Option Nat ← match j.getObjVal? "replica" with
+    | .ok Json.null => pure none
+    | .ok v => do pure (some (← v.getNat?))
+    | .error _ => pure none
+  let refs ← (← getArr j "refs").mapM parseRef
+  let backend ← parseBackend (← j.getObjVal? "backend")
+  return { name := ← getChars j "name", stage := ← getNat j "stage", location := ← getChars j "location",
+           mtime := ← getNat j "mtime", replica := replica, exe := ← getChars j "exe",
+           args := ← getChars j "args", refs := refs, backend := backend }
+
+def parseBp (j : Json) : Except String ((Nat × List Char) × List Char) := do
+  let a ← j.getArr?
+  match a.toList with
+  | [s, n, e] => return ((← s.getNat?, (← n.getStr?).toList), (← e.getStr?).toList)
+  | _ => throw "blueprint entry must be [stage, name, exe]"
+
+def parsePair (j : Json) : Except String (List Char × List Char) := do
+  let a ← j.getArr?
+  match a.toList with
+  | [p, d] => return ((← p.getStr?).toList, (← d.getStr?).toList)
+  | _ => throw "md5 entry must be [preimage, digest]"
+
+def tableMd5 (tab : List (List Char × List Char)) (x : List Char) : List Char :=
+  match tab.find? (fun e => e.1 == x) with
+  | some e => e.2
+  | none => '?' :: x
+
+def outOne (ser hash : Option (List Char)) : Json :=
+  match ser, hash with
+  | some s, some h => jobj [("ser", jchars s), ("hash", jchars h)]
+  | _, _ => Json.null
 
 def handle (j : Json) : Except String Json := do
   let op ← getStr j "op"
-  throw s!"unknown op {op}"
+  match op with
+  | "world" =>
+    let tab ← (← getArr j "md5").mapM parsePair
+    let bps ← (← getArr j "bps").mapM parseBp
+    let comps ← (← getArr j "comps").mapM parseComp
+    let old := (getBool j "old").toOption.getD false
+    let md5 := tableMd5 tab
+    let side (fuzzy : Bool) : Json :=
+      if old then
+        jarr ((hashesOld md5 fuzzy bps comps).map fun h => match h with
+          | some h => jobj [("hash", jchars h)]
+          | none => Json.null)
+      else
+        jarr (((sers md5 fuzzy bps comps).zip (hashes md5 fuzzy bps comps)).map fun (s, h) => outOne s h)
+    return jobj [("strong", side false), ("fuzzy", side true)]
+  | "ser" =>
+    let image ← getOptChars j "image"
+    let files ← getCharsList j "files"
+    return jobj [("ser", jchars (serialize ⟨image, ← getChars j "args", ← getChars j "exe", files⟩))]
+  | "tokens" =>
+    return jobj [("tokens", jarr ((tokens (← getChars j "s")).map jchars))]
+  | "subword" =>
+    return jobj [("out", jchars (subWord (← getChars j "pat") (← getChars j "rep") (← getChars j "s")))]
+  | _ => throw s!"unknown op {op}"
 
 def main : IO Unit := serve handle
